@@ -10,7 +10,14 @@ logged on one timeline so that read/write order can be checked.
 import socket
 
 
+class Spin(BaseException):
+    """raised by the simulated socket when a caller keeps reading an ended stream (progress watchdog,
+    counted in virtual steps, no wall clock)."""
+
+
 class SimSocket:
+    SPIN_LIMIT = 2000
+
     def __init__(self, events=(), tail="eof", accepts=None, send_fail_after=None):
         self.events = [tuple(e) for e in events]
         self.tail = tail
@@ -28,6 +35,7 @@ class SimSocket:
         self.send_calls = 0
         self.close_calls = 0
         self.consumed = 0        # bytes handed to the client
+        self.empty_reads = 0     # consecutive end-of-stream reads (progress watchdog)
         self.clock = 0           # virtual milliseconds
         self.calls = 0           # transport calls of any kind (recv, send, close, shutdown)
 
@@ -85,6 +93,9 @@ class SimSocket:
                 self.log.append(("recv", n, "timeout"))
                 raise socket.timeout("timed out")
             self.log.append(("recv", n, b""))
+            self.empty_reads += 1
+            if self.empty_reads > self.SPIN_LIMIT:
+                raise Spin(f"{self.empty_reads} reads of an ended stream")
             return b""
         ev = self.events[0]
         if ev[0] == "chunk":
